@@ -49,6 +49,23 @@ func TestJSONRoundTrip(t *testing.T) {
 			// (a negative uint256, a nil non-optional pointer, ... are not values of the registered type)
 			if ref := serixgen.RefEncode(c.Root, v, validate); ref.Reject != "" {
 				labels = append(labels, "excluded_value:no_binary_encoding")
+				// a value that the binary form refuses in EVERY mode (nil pointer, negative or oversized uint256, a custom
+				// type that refuses) is no value of the type: the JSON form may refuse it as well, but what it does
+				// produce has to be readable (no rule of a validation mode is involved here)
+				if !validate {
+					je := c.JSONEncode(v, false)
+					if je.Panic != nil {
+						// like the binary side: a crash on a value that has no encoding (e.g. a nil pointer whose custom codec
+						// is called with a nil receiver) is outside every listed property and only counted
+						labels = append(labels, "jsonencode_panicked_on_value_without_binary_encoding")
+					} else if je.Err == nil {
+						labels = append(labels, "json_accepts_value_without_binary_encoding")
+						ex["json"] = string(je.Bytes)
+						if jd := c.JSONDecode(je.Bytes, false); jd.Panic != nil || jd.Err != nil {
+							violation(rt, check, c, v, ex, "JSONEncode accepted a value the binary form refuses (%s), and JSONDecode can not read the result: panic=%v err=%v", ref.Reject, jd.Panic, jd.Err)
+						}
+					}
+				}
 				continue
 			}
 			je := c.JSONEncode(v, validate)
